@@ -278,11 +278,11 @@ Qed.
 Lemma revert_idx : forall W d m h hb ws m', 0 < W ->
   consistent W d = true -> mem_sync W d m = true -> IdxD W d -> MemCover d m ->
   d_height d = Some h -> header d h = Some hb ->
-  op_env d Revert = true -> op_fresh d Revert = true ->
+  op_env d Revert = true ->
   rf_reorg W d m = (Some ws, m') ->
   IdxD W (apply_batch d (revert_batch hb ws)) /\ MemCover (apply_batch d (revert_batch hb ws)) m'.
 Proof.
-  intros W d m h hb ws m' HW Hc Hs [wc wk sn] Hm Hh Hd Henv Hfr Hr.
+  intros W d m h hb ws m' HW Hc Hs [wc wk sn] Hm Hh Hd Henv Hr.
   pose proof (sync_aligned W d m HW Hs) as Ha.
   destruct (rf_reorg_shape W d m HW Ha) as [_ A2]. rewrite Hr in A2. cbn [fst] in A2.
   assert (Hwo : Forall window_only ws). { destruct (A2 ws eq_refl) as [->|[a ->]]; repeat constructor. }
@@ -314,13 +314,11 @@ Proof.
         destruct (h - 1 =? h) eqn:Y; [apply N.eqb_eq in Y; apply N.eqb_neq in Z; lia|reflexivity]. }
       rewrite X in H. destruct H. }
   destruct (sync_parts W d m Hs) as (S1 & S2 & S3). rewrite Hnext in S2, S3.
-  (* the snapshot does not cover the reverted block *)
+  (* the revert batch deletes the persisted snapshot: nothing stale can survive the revert *)
   assert (Hsn' : forall s, d_snap d' = Some s -> rf_next s <= next_num d' /\
             forall x, In x (d_fam d' FHeader) -> floor0 d' <= b_num x -> rf_from s <= b_num x ->
                       b_num x < rf_next s -> ccol (rf_cols s) x).
-  { intros s Hsn. rewrite D in Hsn. destruct (sn s Hsn) as [Ls Cs]. rewrite Hnext'. split.
-    - unfold op_fresh in Hfr. rewrite Hh, Hsn in Hfr. apply N.leb_le in Hfr. exact Hfr.
-    - intros x Hx Hf L3 L4. destruct (Hkeep _ _ Hx) as [Hx' _]. apply Cs; auto. specialize (Hfl x Hx). lia. }
+  { intros s Hsn. rewrite D in Hsn. discriminate. }
   unfold rf_reorg in Hr. rewrite S1, S2 in Hr.
   replace (h + 1 =? 0) with false in Hr by (symmetry; apply N.eqb_neq; lia).
   replace (h + 1 - 1) with h in Hr by lia.
@@ -695,11 +693,11 @@ Qed.
 
 (* every batch prefix of every operation keeps the disk part of the index invariant; after the whole
    operation the memory part holds again *)
-Lemma op_idx : forall W st o, 0 < W -> IdxGood W st -> op_env (fst st) o = true -> op_fresh (fst st) o = true ->
+Lemma op_idx : forall W st o, 0 < W -> IdxGood W st -> op_env (fst st) o = true ->
   (forall j, IdxD W (apply_batches (fst st) (firstn j (fst (plan W o (fst st) (snd st)))))) /\
   MemCover (fst (step W st o)) (snd (step W st o)).
 Proof.
-  intros W [d m] o HW [HG [Hi Hm]] Henv Hfr. pose proof HG as (Hc & Hk & Hs). cbn [fst snd] in *.
+  intros W [d m] o HW [HG [Hi Hm]] Henv. pose proof HG as (Hc & Hk & Hs). cbn [fst snd] in *.
   assert (Hnil : forall j, IdxD W (apply_batches d (firstn j (@nil batch)))). { intros j. destruct j; exact Hi. }
   assert (Hone : forall x : batch, IdxD W (apply_batch d x) -> forall j, IdxD W (apply_batches d (firstn j [x]))).
   { intros x Hx j. destruct (firstn_single x j) as [E|E]; rewrite E; simpl; auto. }
@@ -714,7 +712,7 @@ Proof.
     destruct (find_num h (d_fam d FSU)); [|split; auto].
     destruct (header d h) as [hb|] eqn:Hd; [|split; auto].
     destruct (rf_reorg W d m) as [[ws|] m'] eqn:Hr; cbn [fst snd apply_batches fold_left].
-    + destruct (revert_idx W d m h hb ws m' HW Hc Hs Hi Hm Hh Hd Henv Hfr Hr) as [X Y]. split; auto.
+    + destruct (revert_idx W d m h hb ws m' HW Hc Hs Hi Hm Hh Hd Henv Hr) as [X Y]. split; auto.
     + rewrite (reorg_none_same W d m h m' HW Hs Hh Hr). split; auto.
   - (* Prune *)
     unfold op_env in Henv. destruct (d_height d) as [h|] eqn:Hh.
@@ -779,23 +777,23 @@ Proof.
       apply (mem_fields_eq d1); auto.
 Qed.
 
-Lemma step_idx : forall W st o, 0 < W -> IdxGood W st -> op_env (fst st) o = true -> op_fresh (fst st) o = true ->
+Lemma step_idx : forall W st o, 0 < W -> IdxGood W st -> op_env (fst st) o = true ->
   IdxGood W (step W st o).
 Proof.
-  intros W st o HW HI He Hf. destruct (op_idx W st o HW HI He Hf) as [A B].
+  intros W st o HW HI He. destruct (op_idx W st o HW HI He) as [A B].
   destruct HI as [HG _]. split; [apply step_good; auto|split; auto].
   specialize (A (length (fst (plan W o (fst st) (snd st))))). rewrite firstn_all in A.
   unfold step. destruct (plan W o (fst st) (snd st)); exact A.
 Qed.
 
 Lemma crash_idx : forall W ops k st, 0 < W -> IdxGood W st ->
-  ops_env W ops st = true -> ops_fresh W ops st = true -> IdxD W (crash_disk W ops k st).
+  ops_env W ops st = true -> IdxD W (crash_disk W ops k st).
 Proof.
-  induction ops; simpl; intros k st HW HI He Hf; [apply HI|].
-  apply andb_true_iff in He as [E1 E2]. apply andb_true_iff in Hf as [F1 F2].
+  induction ops; simpl; intros k st HW HI He; [apply HI|].
+  apply andb_true_iff in He as [E1 E2].
   destruct (Nat.leb (length (fst (plan W a (fst st) (snd st)))) k).
   - apply IHops; auto. apply step_idx; auto.
-  - apply (op_idx W st a HW HI E1 F1).
+  - apply (op_idx W st a HW HI E1).
 Qed.
 
 (* ---------- the invariants give the boolean predicate ---------- *)
@@ -859,10 +857,10 @@ Proof.
 Qed.
 
 Lemma crash_index_covers : forall W ops k st, 0 < W -> IdxGood W st ->
-  ops_env W ops st = true -> ops_fresh W ops st = true ->
+  ops_env W ops st = true ->
   index_covers W (fst (exec_crash W ops k st)) = true.
 Proof.
-  intros W ops k st HW HI He Hf. simpl.
+  intros W ops k st HW HI He. simpl.
   destruct (crash_consistent W ops k st HW (proj1 HI) He) as [C K].
   apply index_covers_general; auto. apply crash_idx; auto.
 Qed.
